@@ -209,7 +209,7 @@ func GetParameterSetsFromByteStream(data []byte) (spss, ppss [][]byte) {
 			}
 			currNaluStart = i + 3
 			nextNaluType := GetNaluType(data[currNaluStart])
-			if nextNaluType < 6 { // Video NALU types are below 6
+			if IsVideoNaluType(nextNaluType) {
 				videoFound = true
 				break
 			}
@@ -267,7 +267,7 @@ func ExtractNalusOfTypeFromByteStream(nType NaluType, data []byte, stopAtVideo b
 			currNaluStart = i + 3
 			if currNaluStart < n-1 {
 				nextNaluType := GetNaluType(data[currNaluStart])
-				if stopAtVideo && nextNaluType < 6 { // Video nal unit type
+				if stopAtVideo && IsVideoNaluType(nextNaluType) {
 					return nalus
 				}
 			}
